@@ -312,6 +312,9 @@ pub fn plan(property: &str, tier: &str) -> Option<CheckSpec> {
             gs.max_attach = 0;
             gs.traces = vec![TraceOpt { trace: 0x4D, sampled: true, remote_parent: 0x51 }, TraceOpt { trace: 0x4D, sampled: true, remote_parent: 0x52 }];
             b.add_gen(&gs, 1, &[true, false], &rules, 3_000_000);
+            for pr in overload_many_parked_programs() {
+                b.add("SCHED", pr, true, Some(1), &rules, false);
+            }
             // cancel() of one root while a span it shares with another root is the local parent
             for c in [true, false] {
                 b.add_batch(cancel_in_scope_programs(), c, false, &rules);
@@ -563,6 +566,8 @@ pub fn plan(property: &str, tier: &str) -> Option<CheckSpec> {
         }
         "C10" => {
             let rules = [Rule::Liveness, Rule::NoPanic, Rule::Ctx, Rule::Tree, Rule::Attach, Rule::NoExtra, Rule::Deliver];
+            // scopes on a thread that has opened 70000 scopes before
+            b.add_batch(many_ids_programs().into_iter().filter(|p| p.name.contains("long-lived")).collect(), false, false, &rules);
             let mut g = GenCfg::base("C10");
             g.traces = vec![TraceOpt { trace: 0x10A, sampled: true, remote_parent: 0 }, TraceOpt { trace: 0x10B, sampled: false, remote_parent: 0 }];
             g.any_trace_order = true;
@@ -726,6 +731,11 @@ pub fn plan(property: &str, tier: &str) -> Option<CheckSpec> {
                     b.add("SCHED", pr.clone(), c, Some(bound), &rules, false);
                 }
             }
+            for pr in overload_many_parked_programs() {
+                for c in [true, false] {
+                    b.add("SCHED", pr.clone(), c, Some(1), &rules, false);
+                }
+            }
             let lp = local_limit_programs();
             let n2 = lp.len();
             let mut lp_rules = rules.to_vec();
@@ -885,6 +895,14 @@ pub fn plan(property: &str, tier: &str) -> Option<CheckSpec> {
         }
         let cycles = if property == "C10" || property == "C11" { 0 } else { 1 };
         let nu = b.add_gen(&u, cycles, u_configs, &rules, 3_000_000);
+        // larger configurations (more threads, spans, parents, nesting, traces per cycle, quiet cycles)
+        for &c in u_configs {
+            let mut big = big_programs();
+            // the four-thread program: hand-offs fix most of its order; preemption bound 1
+            let threads = big.remove(0);
+            b.add("SCHED", threads, c, Some(1), &rules, false);
+            b.add_batch(big, c, false, &rules);
+        }
         rule_text = format!("{rule_text}; plus the universal family: {nu} programs over the whole operation alphabet (<= {} operations) x {cycles} cycle placement(s)", u.max_len);
     }
     let exhaustive_claim = b.gen_capped.is_empty();
